@@ -108,8 +108,85 @@ def place_str(p):
     return "_%d%s" % (p[0], "".join(p[1:]))
 
 
+def split_const_bool_switches(rec):
+    """`matches!(x, P if g)` and `match .. { A => true, _ => false }` store a constant in a bool temporary in each arm and branch on the
+    temporary at the join.  For a path-insensitive reachability the join forgets which arm was taken (the `true` arm could leave by
+    the false edge).  The join's switch is therefore split: every arm that assigns the constant c and reaches the switch through
+    trivial gotos gets its own copy of the switch whose other edge leads to an `unreachable` block.  Only infeasible paths are
+    removed; `bool_tests` reports the copies (they are switches on the same temporary)."""
+    blocks = rec["blocks"]
+    locals_ = rec["locals"]
+    defs = {}
+    for bi, b in enumerate(blocks):
+        if b.get("cleanup"):
+            continue
+        for si, st in enumerate(b["stmts"]):
+            defs.setdefault(st["lhs"][0], []).append((bi, si, st))
+        t = b["term"]
+        if t["k"] == "call":
+            defs.setdefault(t["dest"][0], []).append((bi, None, None))
+        elif t["k"] == "yield":
+            defs.setdefault(t["resume_arg"][0], []).append((bi, None, None))
+    dead = None
+    for T, ds in defs.items():
+        if T == 0 or T >= len(locals_) or locals_[T] != "bool" or len(ds) < 2:
+            continue
+        if not all(st is not None and st["lhs"] == [T] and st["rv"]["r"] == "use" and (st["rv"]["o"].get("k") or {}).get("v") in (0, 1) for _, _, st in ds):
+            continue
+        for bi, si, st in ds:
+            b = blocks[bi]
+            if any(x["lhs"][0] == T for x in b["stmts"][si + 1:]) or b["term"]["k"] != "goto":
+                continue
+            # follow trivial gotos to a statement-less switch on T
+            chain, cur, ok = [], b["term"]["t"], False
+            for _ in range(5):
+                x = blocks[cur]
+                if x.get("cleanup"):
+                    break
+                if not x["stmts"] and x["term"]["k"] == "switch" and op_place(x["term"]["o"]) == [T]:
+                    ok = True
+                    break
+                if not x["stmts"] and x["term"]["k"] == "goto":
+                    chain.append(cur)
+                    cur = x["term"]["t"]
+                    continue
+                break
+            if not ok:
+                continue
+            sw = blocks[cur]["term"]
+            c = st["rv"]["o"]["k"]["v"]
+            tgt = sw["otherwise"]
+            for val, bb in sw["targets"]:
+                if val == c:
+                    tgt = bb
+            if dead is None:
+                blocks.append({"cleanup": False, "stmts": [], "term": {"k": "unreachable", "ln": sw.get("ln", 0), "ex": None}})
+                dead = len(blocks) - 1
+            # private copy of the switch: the edge of the other constant is dead
+            nt = dict(sw)
+            if c == 0:
+                nt["targets"] = [[0, tgt]]
+                nt["otherwise"] = dead
+            else:
+                nt["targets"] = [[0, dead]]
+                nt["otherwise"] = tgt
+            nt["split_of"] = cur
+            blocks.append({"cleanup": False, "stmts": [], "term": nt})
+            nxt = len(blocks) - 1
+            # private copies of the trivial blocks in between (they may be shared with the other arms)
+            for x in reversed(chain):
+                g = dict(blocks[x]["term"])
+                g["t"] = nxt
+                blocks.append({"cleanup": False, "stmts": [], "term": g})
+                nxt = len(blocks) - 1
+            b["term"] = dict(b["term"])
+            b["term"]["t"] = nxt
+    return rec
+
+
 class Fn:
     def __init__(self, rec, key, facts):
+        rec = split_const_bool_switches(rec)
         self.rec = rec
         self.key = key
         self.facts = facts
